@@ -113,6 +113,8 @@ func init() {
 				{"cmd": "userdict", "attrs": []UAttr{}, "chords": []UChord{{"T", "t", nil, "U"}, {"U", "u", nil, "V"}, {"V", "v", []string{"Major3"}, "V"}}},                                       // a tail leading into a self-loop
 				{"cmd": "userdict", "attrs": []UAttr{}, "chords": []UChord{{"A", "a", []string{"Major9"}, "B"}, {"B", "b", []string{"Minor7"}, "C"}, {"C", "c", []string{"Major6"}, "MinorTriad"}}}, // depth 3 over a built-in
 				{"cmd": "userdict", "attrs": []UAttr{}, "chords": []UChord{{"A", "a", []string{"Major9"}, "b"}, {"B", "b", []string{"Minor7"}, "m7b5"}}},                                            // extends by display
+				{"cmd": "userdict", "attrs": []UAttr{}, "split": true, "chords": []UChord{{"Child", "ch", []string{"Major9"}, "Parent"}, {"Parent", "pa", []string{"Perfect1", "Minor3"}, ""}}}, // the extending file comes first
+				{"cmd": "userdict", "attrs": []UAttr{}, "split": true, "chords": []UChord{{"Parent", "pa", []string{"Perfect1", "Minor3"}, ""}, {"Child", "ch", []string{"Major9"}, "pa"}}},
 				{"cmd": "userdict", "attrs": []UAttr{{"XA", "b2"}}, "chords": []UChord{{"", "zz", []string{"XA"}, ""}}},                                                                             // unnamed chord
 			}
 			cases = append(cases, hand...)
@@ -153,7 +155,7 @@ func init() {
 							(q.Name == "MinorTriad" && (p.Extends == "m7" || p.Extends == "MinorSeventh")) {
 							continue
 						}
-						pairs = append(pairs, Case{"cmd": "userdict", "attrs": av, "chords": []UChord{p, q}})
+						pairs = append(pairs, Case{"cmd": "userdict", "attrs": av, "chords": []UChord{p, q}, "split": len(pairs)%3 == 1})
 					}
 				}
 			}
@@ -221,9 +223,18 @@ func init() {
 					extra = append(extra, "--attr", f)
 					files = append(files, f)
 				}
-				f := c.writeTemp("c"+id+".yml", chordsYAML(uc))
-				extra = append(extra, "--chord", f)
-				files = append(files, f)
+				if cb(k, "split") && len(uc) > 1 {
+					// one file per entry, in the order written: a dictionary is the whole of its files, whatever their order
+					for fi, one := range uc {
+						f := c.writeTemp(fmt.Sprintf("c%s-%d.yml", id, fi), chordsYAML([]UChord{one}))
+						extra = append(extra, "--chord", f)
+						files = append(files, f)
+					}
+				} else {
+					f := c.writeTemp("c"+id+".yml", chordsYAML(uc))
+					extra = append(extra, "--chord", f)
+					files = append(files, f)
+				}
 				defer func() {
 					for _, f := range files {
 						os.Remove(f)
